@@ -823,6 +823,23 @@ func ruleAccessInflight(c *Ctx) {
 		case *ssa.Store:
 			fa, ok := x.Addr.(*ssa.FieldAddr)
 			if !ok {
+				// a method of the member's own type with a pointer receiver (`func (f *subFlag) set(x subFlag) { *f |= x }`):
+				// the receiver is the address of the member in the caller
+				if prm, isP := x.Addr.(*ssa.Parameter); isP && fr != nil {
+					fa, ok = t.Resolve(fr, x.Addr).V.(*ssa.FieldAddr)
+					if !ok && fr.ID == -1 {
+						// probing the helper for interest: a pointer to the flag member's type may be the member
+						if pt, isPt := prm.Type().Underlying().(*types.Pointer); isPt {
+							for _, fl := range flags {
+								if types.Identical(pt.Elem(), fl.Type()) {
+									return []Ev{{Kind: "flag-op"}}
+								}
+							}
+						}
+					}
+				}
+			}
+			if !ok {
 				return nil
 			}
 			f := fieldOfAddr(fa)
